@@ -212,6 +212,8 @@ def plan_C03(q, seed):
         fam_job("FULL", 60000 if q else 1200000, time_limit=20 if q else 300, extra=["--drop-variants"], label="family-FULL-dropvariants-e1"),
         enum_job(3, 1, cls="FULL", full=True, extra=["--drop-variants"], time_limit=20 if q else 100),
         rand_job("CONSUME", 60000 if q else 1200000, time_limit=20 if q else 300, extra=["--consume-bias", "3"], label="rand-CONSUME-sync-e1"),
+        # values without drop glue that own their handles in raw form: destruction observed through Weak handles
+        gen_job("nodrop", "WF", 40000 if q else 1000000, time_limit=15 if q else 150),
     ]
     jobs += [e3(fam_job("FULL", 100000, extra=["--max-n", "5"], lo=1 << 20), 30 if q else 600)]
     return {
@@ -232,6 +234,8 @@ def plan_C04(q, seed):
         enum_job(3, 1, sample=32 if q else 1, time_limit=20 if q else 400),
         # allocations given up by try_unwrap / make_mut and their bookkeeping must be returned as well
         rand_job("CONSUME", 80000 if q else 1500000, weak=3, time_limit=20 if q else 300, extra=["--consume-bias", "3"], label="rand-CONSUME-mem-e1"),
+        # collected groups of values without drop glue must return their boxes and tables too
+        gen_job("nodrop", "WF", 40000 if q else 1000000, time_limit=15 if q else 150),
     ]
     # independent second opinions on leak-free-predicted batches: LeakSanitizer at exit, Miri's leak checker
     lj = rand_job("WF", 16000 if q else 400000, weak=3, time_limit=25 if q else 300, lo=1 << 21, label="rand-WF-leakcheck-e2l")
